@@ -289,12 +289,12 @@ def _plan(prop, T):
             dict(flavour="vg", suite="ord-random", args=dict(mon="none", coll="maptree+settree+maplist+setlist+settree-int+maptree-int", nojudge=1), shards=8, budget=2400 * (6 if T else 1), seed_offset=91),
             dict(flavour="vg", suite="seg-random", args=dict(mon="none", nojudge=1), shards=4, budget=4000 * (6 if T else 1), seed_offset=91),
             dict(flavour="vg", suite="exp-types", args=dict(mon="none", kinds="key,seg", coll="both", nojudge=1), shards=4, budget=60 * (6 if T else 1), seed_offset=91),
-            dict(flavour="vg", suite="seg-domains", args=dict(grid_len=24, grid_lo=4, nojudge=1), shards=4),
+            dict(flavour="vg", suite="seg-domains", args=dict(grid_len=24, grid_lo=4, nojudge=1, reuse_rounds=1), shards=4),
             dict(flavour="vg", suite="export-size", args=dict(max_n=20000, nojudge=1), shards=4),
             miri("key-random", 72, 6, T, mon="none", coll="both", nojudge=1, **MIRI_KEY),
             miri("ord-random", 60, 6, T, mon="none", coll="maptree+settree+maplist+setlist+settree-int", nojudge=1, **MIRI_ORD),
             miri("seg-random", 60, 4, T, mon="none", len=40, nojudge=1),
-            miri("seg-domains", 1, 4, T, grid_len=20, grid_lo=1, parts="g", nojudge=1),
+            miri("seg-domains", 1, 4, T, grid_len=20, grid_lo=1, parts="g", nojudge=1, reuse_rounds=1),
             miri("exp-types", 1, 6, T, mon="none", kinds="key,seg", coll="both", len=48, nojudge=1),
             miri("key-closure", 1, 2, T, mon="export", sets="2:2:8,2:2:0", nojudge=1),
             miri("ord-closure", 1, 2, T, mon="lookup,handle,steps", sets="maptree:3:8,settree:3:0", nojudge=1),
@@ -372,11 +372,11 @@ def _plan(prop, T):
                 dict(flavour="dbg", suite="seg-domains", args=dict(grid_len=160 if T else 80, grid_lo=140 if T else 70), shards=16),
                 dict(flavour="asan", suite="seg-domains", args=dict(grid_len=40, grid_lo=20), shards=8),
                 dict(flavour="rel", suite="seg-domains", args=dict(grid_len=40, grid_lo=20), shards=4),
-                miri("seg-domains", 1, 8, T, grid_len=24, grid_lo=2, parts="g"),
-                miri("seg-domains", 1, 8, T, parts="x", edge_step=8),
+                miri("seg-domains", 1, 8, T, grid_len=24, grid_lo=2, parts="g", reuse_rounds=1),
+                miri("seg-domains", 1, 8, T, parts="x", edge_step=8, reuse_rounds=1),
             ],
             rule="evaluation = one domain (construction must succeed iff it has > 16 points) or one coordinate whose stored place (hook) must be 31 + ((x-lo) >> s), s least with 32*2^s >= len, with at least 32 + bucket(hi) place lists (every usable place backed by storage), cross-checked by point queries; distinct non-trivial = distinct (coordinate type, lo, len)",
-            require={"domains_built": 5000, "domains_refused_as_required": 1000, "coordinates_checked": 200000, "point_queries_checked": 50000,
+            require={"domains_built": 5000, "domains_reused_after_clear": 5000, "domains_refused_as_required": 1000, "coordinates_checked": 200000, "point_queries_checked": 50000,
                      "domains_with_more_points_than_i64_max": 40},
             exhaustive_claim=True,
             exhaustive_scope="the listed grid: all i32 domains with len 1..=80 x lo -70..=70, i8/u8 corners, 2^k-1/2^k/2^k+1 for k=4..32 at 5 origins in i16/u16/i32/u32, i64 domains up to 2^62+1, 22 i64 domains of 2^63-1 .. 2^64 points",
